@@ -30,7 +30,8 @@ namespace rkcommon {
 
     void BufferReader::read(void *mem, size_t size)
     {
-      if (cursor + size > buffer->size())
+      // overflow-safe: 'cursor + size' may wrap around for huge sizes
+      if (cursor > buffer->size() || size > buffer->size() - cursor)
         throw std::runtime_error("Attempt to read past end of BufferReader!");
 
       if (mem && size > 0)
